@@ -97,7 +97,63 @@ def subharnesses(tier):
             subs.append(('%s-reload_cell-%s-%s' % (
                 topo, '_'.join('%s%d' % kv for kv in sorted(lim.items())),
                 g1.ptag(pl)), spec))
+    # master level: a server record is re-parented to another rack (servers
+    # event -> Loader.reload_server) while it hosts instances of an affinity
+    # with a rack limit; the other rack may already be at the limit
+    for recs in ([[0], [1]], [[0], []], [[0], [0]]):
+        for lim in ({'rack': 1}, {'rack': 1, 'server': 1}):
+            spec = {'level': 'master', 'nservers': 2,
+                    'regime_dems': [3, 3, 3, 3],
+                    'servers': [{'memory': 8}, {'memory': 8}],
+                    'apps': [{'recorded': r, 'memory': 3,
+                              'affinity_limits': dict(lim)} for r in recs],
+                    'limits': dict(lim),
+                    'events': [['server_reparent', 0, 'rack:r1'], ['none']]}
+            subs.append(('master-reparent-%s-%s' % (
+                ''.join(str(len(r)) + (str(r[0]) if r else '')
+                        for r in recs),
+                '_'.join('%s%d' % kv for kv in sorted(lim.items()))), spec))
     return subs
+
+
+def _master_harness(S, spec):
+    import collections
+    import g2
+    W = g2.base_store(S, spec)
+    m = g2.new_master(W)
+    g2.start(W, m)
+    b = W.backend
+
+    def oracle(tag):
+        per = collections.Counter()
+        for name, app in m.cell.apps.items():
+            if not app.server:
+                continue
+            rec = b.get('/servers/' + app.server)
+            per[('rack', rec['parent'])] += 1
+            per[('server', app.server)] += 1
+        for (level, node), n in per.items():
+            if level in spec['limits']:
+                S.check('C04:affinity_limit_exceeded' + tag,
+                        n <= spec['limits'][level],
+                        {'level': level, 'node': node, 'count': n,
+                         'limit': spec['limits'][level]})
+        # the scheduler's own counters equal the true counts
+        Wx = g1.World()
+        Wx.S, Wx.cell, Wx.spec = S, m.cell, {'apps': []}
+        for node in g1.all_nodes(Wx):
+            true = g1.true_affinity_counts(node)
+            for aff in set(true) | set(node.affinity_counters):
+                S.check('C04:affinity_counter_differs_from_true_count' + tag,
+                        node.affinity_counters[aff] == true[aff],
+                        {'node': node.name, 'affinity': aff})
+    oracle(':after_init')
+    for k, ev in enumerate(spec['events']):
+        g2.apply_event(W, m, ev)
+        g2.cycle(W, m)
+        oracle(':after_event%d' % k)
+    S.reach('scheduled')
+    S.reach('master_level')
 
 
 def budget(tier, name):
@@ -111,6 +167,8 @@ def _evict_branch(S, label):
 
 
 def harness(S, spec):
+    if spec.get('level') == 'master':
+        return _master_harness(S, spec)
     W = g1.build(S, spec)
     g1.c04_oracle(W, ':pre', assume=True)     # pre-state satisfies the limits
     if spec['event'][0] != 'none':
@@ -134,5 +192,5 @@ META = {
         'Node.decrement_affinity'],
     'reach_required': ['scheduled', 'eviction_put', 'restored_after_eviction',
                        'event:reload_cell', 'event:remove_server',
-                       'event:replace_server'],
+                       'event:replace_server', 'master_level'],
 }
